@@ -99,7 +99,8 @@ def run(ctx):
                 "empty row for MarkovChain; plus random n<=12 from planted families (periodic strongly connected with chords, "
                 "several recurrent classes of chosen periods fed by transient classes, self-loop inside a longer cycle, sparse "
                 "random), randomly renumbered; input as dense bool/int, dense weights (weighted=True), CSR sorted / shuffled "
-                "indices, MarkovChain dense / sparse; with and without labels. Non-trivial: n>=2 and at least one edge "
+                "indices, CSR / weighted CSR with explicitly stored zeros (not edges; the caller's matrix must stay unchanged), "
+                "MarkovChain dense / sparse (also with stored zeros); with and without labels. Non-trivial: n>=2 and at least one edge "
                 "between different nodes; distinct by request line")
 
     def spec(kind, key_prefix, A, rep, replay):
@@ -186,17 +187,39 @@ def run(ctx):
             arg = Ad.astype(bool) if rng.random() < 0.5 else Ad
         elif form == "weighted":
             arg = Ad * np.array([[rng.choice([0.25, 0.5, 1.0, 2.0, 3.5]) for _ in range(n)] for _ in range(n)])
-        else:  # csr / csr-shuffled: hand over the CSR arrays in the chosen storage order
-            indptr = np.cumsum([0] + [len(r) for r in rows])
-            indices = np.array([v for r in rows for v in r], dtype=np.int32)
+        else:  # csr family: hand over the CSR arrays in the chosen storage order
+            zeros = form in ("csr-zeros", "wcsr-zeros")
+            stored = []          # per row: (column, is_edge) in storage order
+            for i, r in enumerate(rows):
+                ent = [(v, True) for v in r]
+                if zeros:
+                    free = [j for j in range(n) if not A[i][j]]
+                    ent += [(j, False) for j in rng.sample(free, rng.randint(0, min(len(free), 2)))]
+                    rng.shuffle(ent)
+                stored.append(ent)
+            if zeros:
+                if not any(not e for ent in stored for (_, e) in ent):   # make sure one stored zero exists
+                    cand = [(i, j) for i in range(n) for j in range(n) if not A[i][j]]
+                    if cand:
+                        i, j = rng.choice(cand)
+                        stored[i].insert(rng.randint(0, len(stored[i])), (j, False))
+                rows = [[v for (v, e) in ent if e] for ent in stored]     # what eliminate_zeros leaves, same order
+                if any(not e for ent in stored for (_, e) in ent):
+                    ctx.count("stored-zeros:present")
+            indptr = np.cumsum([0] + [len(ent) for ent in stored])
+            indices = np.array([v for ent in stored for (v, _) in ent], dtype=np.int32)
             if kind == "mc":
-                data = np.array([1.0 / len(r) for r in rows for _ in r])
+                data = np.array([(1.0 / len(rows[i]) if e else 0.0) for i, ent in enumerate(stored) for (_, e) in ent])
+            elif form == "wcsr-zeros":
+                data = np.array([(rng.choice([0.25, 0.5, 1.0, 2.0, 3.5]) if e else 0.0) for ent in stored for (_, e) in ent])
             else:
-                data = np.ones(len(indices), dtype=bool if rng.random() < 0.5 else float)
+                dt = bool if rng.random() < 0.5 else float
+                data = np.array([(1 if e else 0) for ent in stored for (_, e) in ent], dtype=dt)
             arg = sparse.csr_matrix((data, indices, indptr), shape=(n, n))
+            before = (arg.data.copy(), arg.indices.copy(), arg.indptr.copy())
         lab = None if labels is None else np.array(labels)
         if kind == "dg":
-            g = DiGraph(arg, weighted=(form == "weighted"), node_labels=lab)
+            g = DiGraph(arg, weighted=(form in ("weighted", "wcsr-zeros")), node_labels=lab)
             rep = {
                 "sc": bool(g.is_strongly_connected),
                 "nscc": int(g.num_strongly_connected_components),
@@ -228,7 +251,17 @@ def run(ctx):
                 rep["sink_lab"] = tolists(mc.recurrent_classes)
                 rep["cyc_lab"] = tolists(attempt(lambda: mc.cyclic_classes))
         rep["labels"] = labels
+        if sparse.issparse(arg):
+            same = (arg.data.dtype == before[0].dtype and np.array_equal(arg.data, before[0])
+                    and np.array_equal(arg.indices, before[1]) and np.array_equal(arg.indptr, before[2]))
+            if not same:
+                ctx.spec_fail(kind + ":mutated-input", "the caller's sparse matrix was modified",
+                              {"op": kind, "form": form, "n": n, "adj": [list(map(int, r)) for r in A],
+                               "data": before[0].tolist(), "indices": before[1].tolist(), "indptr": before[2].tolist()})
+            ctx.count("sparse-input-unchanged-checked")
         replay = {"op": kind, "form": form, "n": n, "adj": [list(map(int, r)) for r in A], "labels": labels,
+                  "csr": None if not sparse.issparse(arg) else {"data": before[0].tolist(), "indices": before[1].tolist(),
+                                                              "indptr": before[2].tolist()},
                   "reported": {k: v for k, v in rep.items()}}
         spec(kind, kind + ":", A, rep, replay)
 
@@ -279,7 +312,8 @@ def run(ctx):
             if kind == "dg" and per == "ERR:NotImplementedError":
                 ctx.count("dg:NotImplementedError")
 
-    FORMS = ["dense", "weighted", "csr", "csr-shuffled"]
+    FORMS = ["dense", "weighted", "csr", "csr-shuffled", "csr-zeros", "wcsr-zeros"]
+    MCFORMS = ["dense", "csr", "csr-shuffled", "csr-zeros"]
 
     def pick_labels(n, on):
         if not on:
@@ -293,9 +327,9 @@ def run(ctx):
         for bits in itertools.product((0, 1), repeat=n * n):
             A = [list(bits[i * n:(i + 1) * n]) for i in range(n)]
             k += 1
-            one(A, "dg", FORMS[k % 4], pick_labels(n, k % 3 == 0))
+            one(A, "dg", FORMS[k % 6], pick_labels(n, k % 5 == 0))
             if all(any(r) for r in A):
-                one(A, "mc", ("dense", "csr", "csr-shuffled")[k % 3], pick_labels(n, k % 5 == 0))
+                one(A, "mc", MCFORMS[k % 4], pick_labels(n, k % 7 == 0))
                 ctx.count("exhaustive:mc-patterns-n=%d" % n)
             ctx.count("exhaustive:dg-patterns-n=%d" % n)
     ctx.exhaustive = True
@@ -404,7 +438,7 @@ def run(ctx):
         n = len(A)
         ctx.count("family:%d" % fam)
         kind = "mc" if (all(any(r) for r in A) and rng.random() < 0.6) else "dg"
-        form = rng.choice(FORMS if kind == "dg" else ["dense", "csr", "csr-shuffled"])
+        form = rng.choice(FORMS if kind == "dg" else MCFORMS)
         one(A, kind, form, pick_labels(n, rng.random() < 0.3))
 
     # ---- malformed stream (error paths of the constructors; no model counterpart) -------------------------
